@@ -443,3 +443,30 @@ func referrers(v ssa.Value) []ssa.Instruction {
 	}
 	return *r
 }
+
+// naturalLoop returns the blocks of the natural loop with header h (h plus
+// every block that can reach a back-edge source without passing through h),
+// or nil if h is not a loop header.
+func naturalLoop(h *ssa.BasicBlock) map[*ssa.BasicBlock]bool {
+	var latches []*ssa.BasicBlock
+	for _, p := range h.Preds {
+		if h.Dominates(p) {
+			latches = append(latches, p)
+		}
+	}
+	if len(latches) == 0 {
+		return nil
+	}
+	loop := map[*ssa.BasicBlock]bool{h: true}
+	work := append([]*ssa.BasicBlock{}, latches...)
+	for len(work) > 0 {
+		b := work[len(work)-1]
+		work = work[:len(work)-1]
+		if loop[b] {
+			continue
+		}
+		loop[b] = true
+		work = append(work, b.Preds...)
+	}
+	return loop
+}
